@@ -104,6 +104,36 @@ type Hub struct {
 	MemPool, P2P, RPC, Syncer *Rec
 }
 
+// FDAnswerer stands in for the chain service actor in ONE respect: it answers the transaction pool's
+// CheckFeeDelegation request exactly as chain.ChainWorker does (fresh state DB at the current root, the contract's
+// own check function). Register it together with a pool on a hub of its own.
+type FDAnswerer struct {
+	Rec
+	N *Node
+}
+
+// NewRec makes a component that only records what it is told.
+func NewRec(name string) *Rec { return &Rec{name: name} }
+
+func NewFDAnswerer(n *Node) *FDAnswerer { return &FDAnswerer{Rec: Rec{name: message.ChainSvc}, N: n} }
+
+func (a *FDAnswerer) RequestFuture(m interface{}, timeout time.Duration, tip string) *actor.Future {
+	f := actor.NewFuture(timeout)
+	msg, ok := m.(*message.CheckFeeDelegation)
+	if !ok {
+		f.PID().Tell(component.ErrHubUnregistered)
+		return f
+	}
+	sdb := a.N.CS.SDB().OpenNewStateDB(a.N.CS.SDB().GetRoot())
+	ctrState, err := statedb.OpenContractStateAccount(msg.Contract, sdb)
+	if err == nil {
+		bs := state.NewBlockState(sdb)
+		err = contract.CheckFeeDelegation(msg.Contract, bs, nil, a.N.CS.CDB().(contract.ChainAccessor), ctrState, msg.Payload, msg.TxHash, msg.Sender, msg.Amount)
+	}
+	f.PID().Tell(message.CheckFeeDelegationRsp{Err: err})
+	return f
+}
+
 func newHub() *Hub {
 	h := &Hub{ComponentHub: component.NewComponentHub(),
 		MemPool: &Rec{name: message.MemPoolSvc}, P2P: &Rec{name: message.P2PSvc}, RPC: &Rec{name: message.RPCSvc}, Syncer: &Rec{name: message.SyncerSvc}}
@@ -243,11 +273,8 @@ func (n *Node) SwitchTo() {
 	}
 }
 
-// Open starts a node on dir. If dir holds no chain yet the genesis of spec is written first.
-func Open(spec *Spec, dir string) (*Node, error) {
-	if dir == "" {
-		dir = TempDir("vnode")
-	}
+// ConfigFor is the node configuration used for spec on dir.
+func ConfigFor(spec *Spec, dir string) *config.Config {
 	serverCtx := config.NewServerContext("", "")
 	cfg := serverCtx.GetDefaultConfig().(*config.Config)
 	cfg.DbType = "memorydb"
@@ -256,6 +283,15 @@ func Open(spec *Spec, dir string) (*Node, error) {
 	cfg.Blockchain.VerifierCount = 1
 	hf := spec.Hardfork
 	cfg.Hardfork = &hf
+	return cfg
+}
+
+// Open starts a node on dir. If dir holds no chain yet the genesis of spec is written first.
+func Open(spec *Spec, dir string) (*Node, error) {
+	if dir == "" {
+		dir = TempDir("vnode")
+	}
+	cfg := ConfigFor(spec, dir)
 	if _, err := os.Stat(dir + "/chain/database"); err != nil {
 		core, err := chain.NewCore("memorydb", dir, false, 0, cfg.DB)
 		if err != nil {
@@ -329,6 +365,30 @@ type Produced struct {
 // generator through its fetch decorator. The block state is committed (as the chain service
 // does when it receives the block from its own block factory) only by AddOwn.
 func (n *Node) Produce(prev *types.Block, ts int64, cands []*types.Tx, coinbase []byte) (*Produced, error) {
+	return n.ProduceUntil(prev, ts, cands, coinbase, -1)
+}
+
+// deadlineCtx is a block-generation context whose deadline the harness lets pass at a chosen moment.
+type deadlineCtx struct {
+	context.Context
+	done chan struct{}
+	once sync.Once
+}
+
+func (c *deadlineCtx) Done() <-chan struct{} { return c.done }
+func (c *deadlineCtx) Err() error {
+	select {
+	case <-c.done:
+		return context.DeadlineExceeded
+	default:
+		return nil
+	}
+}
+func (c *deadlineCtx) expire() { c.once.Do(func() { close(c.done) }) }
+
+// ProduceUntil is Produce with a block-generation deadline that passes WHILE candidate number expireDuring is being
+// executed (-1: never): the producer finishes that transaction and must close the block with it included.
+func (n *Node) ProduceUntil(prev *types.Block, ts int64, cands []*types.Tx, coinbase []byte, expireDuring int) (*Produced, error) {
 	cs := n.CS
 	bv := cs.VerifHardfork()
 	bi := types.NewBlockHeaderInfoFromPrevBlock(prev, ts, bv)
@@ -337,7 +397,15 @@ func (n *Node) Produce(prev *types.Block, ts int64, cands []*types.Tx, coinbase 
 	bs.Receipts().SetHardFork(bv, bi.No)
 	out := &Produced{BState: bs, Errors: map[string]error{}}
 	exec := chain.NewTxExecutor(context.Background(), nil, cs.CDB().(contract.ChainAccessor), bi, contract.BlockFactory)
+	genCtx := &deadlineCtx{Context: context.Background(), done: make(chan struct{})}
+	idxOf := map[string]int{}
+	for i, tx := range cands {
+		idxOf[string(tx.GetHash())] = i
+	}
 	txOp := cchain.TxOpFn(func(bState *state.BlockState, tx types.Transaction) error {
+		if i, ok := idxOf[string(tx.GetHash())]; ok && i == expireDuring {
+			genCtx.expire()
+		}
 		err := exec(bState, tx)
 		if err != nil {
 			out.Errors[fmt.Sprintf("%x", tx.GetHash())] = err
@@ -351,7 +419,7 @@ func (n *Node) Produce(prev *types.Block, ts int64, cands []*types.Tx, coinbase 
 	saved := chain.CoinbaseAccount
 	chain.CoinbaseAccount = coinbase
 	defer func() { chain.CoinbaseAccount = saved }()
-	gen := cchain.NewBlockGenerator(nil, context.Background(), bi, bs, txOp, false).
+	gen := cchain.NewBlockGenerator(nil, genCtx, bi, bs, txOp, false).
 		WithDeco(func(cchain.FetchFn) cchain.FetchFn {
 			return func(component.ICompSyncRequester, uint32) []types.Transaction { return in }
 		}).SetNoTTE(true)
